@@ -38,7 +38,8 @@ SKIP_METHODS = {"__repr__"}
 ERRORS = {"IndexError": "indexError", "KeyError": "keyError", "JellyConformanceError": "conformance",
           "JellyAssertionError": "jassertion", "ValueError": "valueError", "TypeError": "typeError",
           "AssertionError": "assertionError", "NotImplementedError": "notImplemented"}
-TYPES = {"int": "Nat", "str": "String", "bool": "Bool", "None": "Unit", "int | None": "Option Nat", "str | None": "Option String"}
+TYPES = {"int": "Nat", "str": "String", "bool": "Bool", "None": "Unit", "int | None": "Option Nat", "str | None": "Option String",
+         "jelly.RdfStreamFrame | None": "Option Frame"}
 # locals whose type is not Nat
 LOCAL_TYPES = {("LookupDecoder", "at", "value"): "Option String"}
 
@@ -52,9 +53,12 @@ def fail(node, why):
 
 
 class Method:
-    def __init__(self, cls: str, fn: ast.FunctionDef, kinds: dict[str, str], consts: dict[str, int]):
+    def __init__(self, cls: str, fn: ast.FunctionDef, kinds: dict[str, str], consts: dict[str, int], struct: str | None = None,
+                 fields: dict[str, str] | None = None, name: str | None = None):
         self.cls, self.fn, self.kinds, self.consts = cls, fn, kinds, consts
-        self.fields = CLASSES[cls]["fields"]
+        self.fields = fields if fields is not None else CLASSES[cls]["fields"]
+        self.struct = struct if struct is not None else CLASSES[cls]["struct"]
+        self.name = name or f"{cls}.{fn.name}"
         self.lines: list[str] = []
         self.tmp = 0
         self.declared: set[str] = set()
@@ -62,6 +66,7 @@ class Method:
         if ann not in TYPES:
             fail(fn, f"return annotation {ann}")
         self.ret = TYPES[ann]
+        self.opt_params: set[str] = set()
 
     # -- helpers ------------------------------------------------------------------------------
     def fresh(self) -> str:
@@ -372,7 +377,7 @@ class Method:
             self.emit(ind, "pure ()")
 
     # -- whole method -------------------------------------------------------------------------
-    def render(self) -> str:
+    def params(self) -> list[tuple[str, str]]:
         fn = self.fn
         params = []
         a = fn.args
@@ -383,6 +388,11 @@ class Method:
             if ann not in ("int", "str"):
                 fail(fn, f"parameter annotation of {p.arg}")
             params.append((p.arg, TYPES[ann]))
+        return params
+
+    def render(self) -> str:
+        fn = self.fn
+        params = self.params()
         assigned = {}
         for node in ast.walk(fn):
             if isinstance(node, ast.Assign):
@@ -391,7 +401,7 @@ class Method:
                         if isinstance(el, ast.Name) and el.id not in ("msg", "_"):
                             assigned.setdefault(el.id, node)
         top_level = {t.id for s in fn.body if isinstance(s, ast.Assign) for t in s.targets if isinstance(t, ast.Name)}
-        head = f"def {self.cls}.{fn.name} " + " ".join(f"({n} : {t})" for n, t in params) + f"{' ' if params else ''}: M {CLASSES[self.cls]['struct']} {'(' + self.ret + ')' if ' ' in self.ret else self.ret} := do"
+        head = f"def {self.name} " + " ".join(f"({n} : {t})" for n, t in params) + f"{' ' if params else ''}: M {self.struct} {'(' + self.ret + ')' if ' ' in self.ret else self.ret} := do"
         self.lines = [head]
         for n, _t in params:
             if n in assigned:  # a parameter that is assigned to: shadow it by a mutable local
